@@ -802,3 +802,77 @@ package decimal
 //@   hint[after:norm#1] len(result) >= 1 ==> P_mono(0, len(result)-1)
 //@   tags safety C04,C20
 //@   tags support C20,C08
+
+// ---------------------------------------------------------------------------
+// Gob encoding (C17)
+
+//@ extern errors.New (text)
+//@   ensures[nonnil] result != nil
+//@ extern fmt.Errorf (format, a)
+//@   ensures[nonnil] result != nil
+
+//@ func bigEndianWord(buf []byte) Word
+//@   requires[len] len(buf) >= 8
+//@   ensures[range] 0 <= result
+//@   status assumed wrapper of binary.BigEndian.Uint64 (Uint32 on 32-bit words)
+
+//@ func (z dec) setBytes(buf []byte) dec
+//@   requires[small] len(buf) <= 1000000000
+//@   modifies memcap(z)
+//@   ensures[where] result_in(result, z)
+//@   ensures[norm,C17] natnorm(result)
+//@   ensures[len,C17] 8*len(result) <= len(buf) + 7
+//@   loop 1 invariant[range] 0 <= k && 0 <= i && i + 8*k == len(buf) && 8*len(z) >= len(buf) && 8*len(z) <= len(buf) + 7
+//@   loop 1 modifies mem(z)
+//@   loop 2 invariant[range] 0 <= i && i < 8 && s + 8*i == 8*(len(buf) % 8) && len(z) >= 1
+//@   tags safety C04,C17
+
+// GobDecode is total on arbitrary bytes: it returns an error and leaves z untouched, or
+// leaves a canonical Decimal; a receiver with non-zero precision keeps precision and mode.
+//@ func (z *Decimal) GobDecode(buf []byte) error
+//@   nomerge
+//@   requires[wf] z != nil && z.mode <= 5 && len(buf) <= 800000000 && (z.prec != 0 ==> valid(z))
+//@   modifies z.prec, z.mode, z.acc, z.form, z.neg, z.exp, z.mant, memcap(z.mant)
+//@   ensures[valid,C17,C08] result == nil ==> valid(z)
+//@   ensures[errkeeps,C17] result != nil ==> scalars_unchanged(z)
+//@   ensures[sticky,C17,C09] result == nil && old(z.prec) != 0 && len(buf) != 0 ==> z.prec == old(z.prec) && z.mode == old(z.mode)
+//@   ensures[fields,C17] result == nil && len(buf) != 0 && old(z.prec) == 0 ==>
+//@        z.mode == (old(buf[1])/32) % 8 && z.acc == (old(buf[1])/8) % 4 - 1 && z.form == (old(buf[1])/2) % 4 && (z.neg <==> old(buf[1]) % 2 == 1) &&
+//@        z.prec == ((old(buf[2])*256 + old(buf[3]))*256 + old(buf[4]))*256 + old(buf[5]) &&
+//@        (z.form == finite ==> (z.exp >= 0 ? z.exp : z.exp + 4294967296) == ((old(buf[6])*256 + old(buf[7]))*256 + old(buf[8]))*256 + old(buf[9]))
+//@   ensures[empty,C17] len(buf) == 0 ==> result == nil && z.prec == 0 && z.mode == 0 && z.acc == 0 && z.form == zero && z.neg == false
+//@   loop 1 invariant[range] 0 - 1 <= rangeindex && rangeindex < len(mant)
+//@   loop 1 invariant[words] forall k in 0..rangeindex+1 :: 0 <= mant[k] && mant[k] < B
+//@   tags safety C04,C17
+
+//@ func (x dec) bytes(buf []byte) (i int)
+//@   requires[len] len(buf) >= 8*len(x) && len(x) <= 1000000000
+//@   modifies mem(buf)
+//@   ensures[range,C17] 0 <= i && i <= len(buf)
+//@   loop 1 invariant[range] 0 - 1 <= rangeindex && rangeindex < len(x) && i == len(buf) - 8*(rangeindex + 1)
+//@   loop 1 modifies mem(buf)
+//@   loop 2 invariant[range] 0 <= j && j <= 8 && 0 <= rangeindex && rangeindex < len(x) && i == len(buf) - 8*rangeindex - j
+//@   loop 2 modifies mem(buf)
+//@   loop 3 invariant[range] 0 <= i && i <= len(buf)
+//@   tags safety C04,C17
+
+// The header byte packs mode, accuracy, form and sign; GobDecode unpacks exactly these
+// fields (lemma gob_header: unpack(pack(...)) is the identity on valid attributes).
+//@ func (x *Decimal) GobEncode() ([]byte, error)
+//@   requires[wf] x == nil || (valid(x) && (x.form == finite ==> len(x.mant) <= 100000000))
+//@   ensures[nil,C17] x == nil ==> len(result0) == 0 && result1 == nil
+//@   ensures[err,C17] result1 == nil
+//@   ensures[len,C17] x != nil ==> len(result0) == (x.form == finite ? 10 + 8*(len(x.mant) < (x.prec + 18)/19 ? len(x.mant) : (x.prec + 18)/19) : 6)
+//@   ensures[header,C17] x != nil ==> result0[0] == 1 && result0[1] == x.mode*32 + (x.acc + 1)*8 + x.form*2 + (x.neg ? 1 : 0)
+//@   ensures[prec,C17] x != nil ==> ((result0[2]*256 + result0[3])*256 + result0[4])*256 + result0[5] == x.prec
+//@   ensures[exp,C17] x != nil && x.form == finite ==> ((result0[6]*256 + result0[7])*256 + result0[8])*256 + result0[9] == (x.exp >= 0 ? x.exp : x.exp + 4294967296)
+//@   ensures[operands,C09,C18] x != nil ==> unchanged(x)
+//@   tags safety C04,C17
+
+// Round trip of the attribute bytes: what GobDecode.ensures[fields] extracts from the byte
+// GobEncode.ensures[header] writes is the original attribute, for every valid Decimal.
+//@ lemma gob_header(mode, acc, form, neg)
+//@   requires 0 <= mode && mode <= 5 && 0 - 1 <= acc && acc <= 1 && 0 <= form && form <= 2 && 0 <= neg && neg <= 1
+//@   ensures ((mode*32 + (acc + 1)*8 + form*2 + neg)/32) % 8 == mode && ((mode*32 + (acc + 1)*8 + form*2 + neg)/8) % 4 - 1 == acc &&
+//@           ((mode*32 + (acc + 1)*8 + form*2 + neg)/2) % 4 == form && (mode*32 + (acc + 1)*8 + form*2 + neg) % 2 == neg &&
+//@           mode*32 + (acc + 1)*8 + form*2 + neg < 256
